@@ -29,6 +29,28 @@ Proof.
     destruct (IH v c) as (Hin & Hex); [rewrite E; reflexivity|]. split; [right; exact Hin|exact Hex].
 Qed.
 
+(* if match tracking never lowers the vigilance (w.r.t. a preorder on vigilance
+   states), the winner passed a vigilance at least as strict as the configured one *)
+Lemma scan_win_vig {V} (Vle : V -> V -> Prop) mbin veto_ok track :
+  (forall v, Vle v v) -> (forall a b c, Vle a b -> Vle b c -> Vle a c) ->
+  (forall v c, mbin v c = true -> veto_ok v c = false -> Vle v (fst (track v c))) ->
+  forall l (v : V) c,
+  fst (fst (scan mbin veto_ok track l v)) = Some c ->
+  In c l /\ exists v', Vle v v' /\ veto_ok v' c = true /\ mbin v' c = true.
+Proof.
+  intros Hrefl Htrans Hup. induction l as [|a l IH]; intros v c H; cbn [scan] in H; [discriminate|].
+  destruct (mbin v a) eqn:Hm, (veto_ok v a) eqn:Hv; cbn [andb] in H.
+  - inversion H; subst. split; [left; reflexivity|]. exists v. auto.
+  - pose proof (Hup v a Hm Hv) as Hle. destruct (track v a) as [v' keep]. cbn in Hle. destruct keep; [|discriminate].
+    destruct (scan mbin veto_ok track l v') as [[w vf] lg] eqn:E. cbn in H. subst w.
+    destruct (IH v' c) as (Hin & v2 & Hle2 & Hex); [rewrite E; reflexivity|].
+    split; [right; exact Hin|]. exists v2. split; [eapply Htrans; eauto|exact Hex].
+  - destruct (scan mbin veto_ok track l v) as [[w vf] lg] eqn:E. cbn in H. subst w.
+    destruct (IH v c) as (Hin & Hex); [rewrite E; reflexivity|]. split; [right; exact Hin|exact Hex].
+  - destruct (scan mbin veto_ok track l v) as [[w vf] lg] eqn:E. cbn in H. subst w.
+    destruct (IH v c) as (Hin & Hex); [rewrite E; reflexivity|]. split; [right; exact Hin|exact Hex].
+Qed.
+
 Lemma omapi_nth {A B} (f : nat -> A -> option B) l : forall i r k y,
   omapi i f l = Some r -> nth_error r k = Some y ->
   exists a, nth_error l k = Some a /\ f (i + k) a = Some y.
